@@ -1253,7 +1253,259 @@ def run(rep: Report, ctx: Any) -> str:
     keyword_glue(rep, ctx, "R01.11")
     # ---- R01.12 -------------------------------------------------------------------------------------------------------------------------
     _names_bound(rep, ctx, universe)
+    # ---- R01.13 -------------------------------------------------------------------------------------------------------------------------
+    _imports_conserved(rep, ctx)
+    # ---- R01.14 -------------------------------------------------------------------------------------------------------------------------
+    _sibling_modules_named_as_written(rep, ctx)
     return LEVEL
+
+
+# ---- R01.13 ---------------------------------------------------------------------------------------------------------------------------
+# R01.1 decides that the import lines a kind's get_imports / get_lazy_imports returns cover the names its generated code uses.  That is
+# worth what reaches the host module: between those methods and the template loop that prints the host's import set, the lines are
+# collected (update, |=, union, copies) and must not be lost.  The one line a host may drop is the import of its own module (the class
+# is defined there).  Stated for every function of the package and every template: a value that holds import lines - the result of
+# get_imports / get_lazy_imports, the attributes and parameters relative_imports / lazy_imports, locals made from them - is never
+# narrowed (set difference / intersection, discard / remove / pop / clear, a comprehension, loop or filter() with a condition on the
+# line, a template filter other than an ordering one, a loop filter) by anything but a test against the host's `self_import`.
+_IMPORT_SOURCES = ("get_imports", "get_lazy_imports")
+_IMPORT_SLOTS = ("relative_imports", "lazy_imports")
+_SAME_LINES = ("set", "frozenset", "list", "tuple", "sorted", "copy", "union", "chain")
+_NARROWING_CALLS = ("difference", "difference_update", "intersection", "intersection_update", "symmetric_difference",
+                    "symmetric_difference_update", "discard", "remove", "pop", "clear")
+_OWN_MODULE = "self_import"
+
+
+def _imports_conserved(rep: Report, ctx: Any) -> None:
+    from ..astutil import bool_atoms
+
+    rep.rule("R01.13", "import lines are conserved: between get_imports / get_lazy_imports and the template loop that prints a host's "
+                       "relative_imports / lazy_imports, a set of import lines is only ever narrowed by the test against the host's own "
+                       "module (self_import); templates print the sets through ordering filters only")
+    ix, jx = ctx.py, ctx.jinja
+    n_flows = 0
+    for g in ix.all_functions:
+        if g.parent is not None:
+            continue  # (a nested function is part of the function it stands in: it reads that function's locals)
+        fn = g.node
+        lc = Locals(fn)
+        held = {a.arg for x in ast.walk(fn) if isinstance(x, (ast.FunctionDef, ast.AsyncFunctionDef, ast.Lambda))
+                for a in [*x.args.posonlyargs, *x.args.args, *x.args.kwonlyargs] if a.arg in _IMPORT_SLOTS}
+
+        def lines(e: "ast.AST | None", depth: int = 0) -> bool:
+            """e is a collection of import lines"""
+            if e is None or depth > 6:
+                return False
+            if isinstance(e, ast.Name):
+                return e.id in held
+            if isinstance(e, ast.Attribute):
+                return e.attr in _IMPORT_SLOTS
+            if isinstance(e, ast.Call):
+                last = call_name(e).rsplit(".", 1)[-1]
+                if last in _IMPORT_SOURCES:
+                    return True
+                if last in _SAME_LINES or last in _NARROWING_CALLS:
+                    recv = [e.func.value] if isinstance(e.func, ast.Attribute) else []
+                    return any(lines(a.value if isinstance(a, ast.Starred) else a, depth + 1) for a in [*recv, *e.args])
+                return False
+            if isinstance(e, ast.BinOp):
+                return lines(e.left, depth + 1) or (isinstance(e.op, (ast.BitOr, ast.BitAnd, ast.BitXor)) and lines(e.right, depth + 1))
+            if isinstance(e, ast.IfExp):
+                return lines(e.body, depth + 1) or lines(e.orelse, depth + 1)
+            if isinstance(e, ast.BoolOp):
+                return any(lines(v, depth + 1) for v in e.values)
+            if isinstance(e, (ast.SetComp, ast.ListComp, ast.GeneratorExp)):
+                return isinstance(e.elt, ast.Name) and any(lines(c.iter, depth + 1) and isinstance(c.target, ast.Name) and c.target.id == e.elt.id
+                                                           for c in e.generators)
+            if isinstance(e, (ast.Set, ast.List, ast.Tuple)):
+                return any(isinstance(x, ast.Starred) and lines(x.value, depth + 1) for x in e.elts)
+            return False
+
+        for _ in range(4):  # locals made from import lines, or that import lines are added to
+            more = {n for n, ds in lc.defs.items() if n not in held and any(not k.startswith("for") and lines(v) for k, _, v in ds)}
+            more |= {r for attr in ("update", "extend") for r, c_ in receivers(fn, attr) if r.isidentifier() and r not in held
+                     and any(lines(a) for a in c_.args)}
+            if not more:
+                break
+            held |= more
+        if not (held or any(isinstance(x, ast.Call) and call_name(x).rsplit(".", 1)[-1] in _IMPORT_SOURCES for x in ast.walk(fn))
+                or any(isinstance(x, ast.Attribute) and x.attr in _IMPORT_SLOTS for x in ast.walk(fn))):
+            continue
+        n_flows += 1
+        ln = local_names(fn)
+
+        def own_module_only(tests: list[ast.AST]) -> bool:
+            """every condition the decision consists of is a test against the host's own module"""
+            atoms = [a for t in tests for a in bool_atoms(t)]
+            return bool(atoms) and all(_OWN_MODULE in a for a in atoms)
+
+        lost: list[tuple[ast.AST, str]] = []
+        for x in ast.walk(fn):
+            if isinstance(x, ast.BinOp) and isinstance(x.op, (ast.Sub, ast.BitAnd, ast.BitXor)) and \
+                    (lines(x.left) or (not isinstance(x.op, ast.Sub) and lines(x.right))):
+                lost.append((x, "difference"))
+            elif isinstance(x, ast.AugAssign) and isinstance(x.op, (ast.Sub, ast.BitAnd, ast.BitXor)) and lines(x.target):
+                lost.append((x, "difference"))
+            elif isinstance(x, ast.Call) and isinstance(x.func, ast.Attribute) and x.func.attr in _NARROWING_CALLS and lines(x.func.value):
+                lost.append((x, x.func.attr))
+            elif isinstance(x, ast.Call) and call_name(x) in ("filter", "itertools.filterfalse", "filterfalse") and len(x.args) == 2 and lines(x.args[1]):
+                if not (isinstance(x.args[0], ast.Lambda) and own_module_only([x.args[0].body])):
+                    lost.append((x, "filter"))
+            elif isinstance(x, (ast.SetComp, ast.ListComp, ast.GeneratorExp, ast.DictComp)):
+                for c in x.generators:
+                    if lines(c.iter) and c.ifs and not own_module_only(list(c.ifs)):
+                        lost.append((x, "comprehension-filter"))
+            elif isinstance(x, (ast.For, ast.AsyncFor)) and lines(x.iter) and isinstance(x.target, ast.Name):
+                el = x.target.id
+                for t in [y for b_ in x.body for y in ast.walk(b_) if isinstance(y, ast.If) and el in names_in(y.test)]:
+                    inner = [z for b_ in [*t.body, *t.orelse] for z in ast.walk(b_)]
+                    selects = any(isinstance(z, ast.Continue) for z in inner) or any(
+                        isinstance(z, ast.Call) and isinstance(z.func, ast.Attribute) and z.func.attr in ("add", "append") and
+                        any(isinstance(a, ast.Name) and a.id == el for a in z.args) for z in inner)
+                    if selects and not own_module_only([t.test]):
+                        lost.append((t, "loop-filter"))
+        for x, how in lost:
+            rep.fail("R01.13", f"{short(g)}::{how}->{anon(x, ln)[:70]}",
+                     "import lines that a property's get_imports / get_lazy_imports contributed are removed on their way to the host module by "
+                     "something other than the test against the host's own module: a name the generated code uses is no longer imported "
+                     "(NameError / ImportError in the generated module)", where(g, x), lhs=norm(x)[:120],
+                     rhs=f"import lines only collected; dropped only by a test against {_OWN_MODULE}")
+        if not lost:
+            rep.check(True, "R01.13", f"{short(g)}::import-lines-kept", "", where(g, fn))
+    rep.floor("functions_handling_import_lines", n_flows, 6)
+
+    n_loops = 0
+    for tn_, ti_ in sorted(jx.templates.items()):
+        for lp in ti_.tree.find_all(nodes.For):
+            flt = [x for x in [lp.iter, *lp.iter.find_all(nodes.Filter)] if isinstance(x, nodes.Filter)]
+            base = lp.iter
+            while isinstance(base, nodes.Filter) and base.node is not None:
+                base = base.node
+            if not (isinstance(base, nodes.Getattr) and base.attr in _IMPORT_SLOTS):
+                continue
+            n_loops += 1
+            bad = sorted({x.name for x in flt if x.name not in _ORDER_ONLY}) + (["loop filter"] if lp.test is not None else [])
+            rep.check(not bad, "R01.13", f"{tn_}::for {_domain(lp.iter)}::all-lines-printed",
+                      f"the loop that prints the import lines of the host leaves some out ({bad})", where=f"{PKG}/templates/{tn_}:{lp.lineno}",
+                      lhs=expr_text(lp.iter), rhs="ordering filters only, no loop filter")
+    rep.floor("import_line_loops", n_loops, 3)
+
+
+# ---- R01.14 ---------------------------------------------------------------------------------------------------------------------------
+# A module of the generated package exists under the name the builder writes it: the stem expression E of a path `<dir> / f"{E}.py"`
+# in the module that writes the tree (PythonIdentifier(endpoint.name, prefix), <model>.class_info.module_name).  Template text that
+# imports a sibling module through a hole (`from . import {{ H }}`, `from .{{ H }} import ...`, `from .pkg.{{ H }} import`) refers
+# to a file only when H is the same derivation: the same function of the same field of the element.  Both sides are brought to one
+# spelling - the element at hand is `_`; functions the environment offers to templates under another name (globals bound to a lambda,
+# TEMPLATE_FILTERS) are the functions they stand for; `utils.` / `self.` qualification dropped - and compared.  (That the element
+# ranges over the same collection as the loop that writes the files is not compared.)
+_MODULE_HOLE = re.compile(r"(?:^|\n)[ \t]*(?:from[ \t]+\.+(?:\w+\.)*|from[ \t]+\.+[ \t]+import[ \t]+(?:\w+[ \t]*,[ \t]*)*)$")
+
+
+def _sibling_modules_named_as_written(rep: Report, ctx: Any) -> None:
+    import copy
+
+    rep.rule("R01.14", "a sibling module that template text imports through a hole is named by the derivation under which the builder "
+                       "writes a module file (the stem of a path `<dir> / f\"{E}.py\"`): same function of the same field")
+    ix, jx = ctx.py, ctx.jinja
+    proj = ix.cls("Project")
+    writer_mod = proj.module
+
+    class Canon(ast.NodeTransformer):
+        def __init__(self, local: set[str], once: dict[str, ast.AST], depth: int = 0) -> None:
+            self.local, self.once, self.depth = local, once, depth
+
+        def visit_Name(self, n: ast.Name) -> ast.AST:
+            if n.id in self.once and self.depth < 4:
+                return Canon(self.local, self.once, self.depth + 1).visit(copy.deepcopy(self.once[n.id]))
+            return ast.Name(id="_", ctx=ast.Load()) if n.id in self.local else n
+
+        def visit_Attribute(self, n: ast.Attribute) -> ast.AST:
+            if isinstance(n.value, ast.Name) and n.value.id in ("utils", "self") and n.value.id not in self.local:
+                return ast.Name(id=n.attr, ctx=ast.Load())
+            return self.generic_visit(n)
+
+    def canon(e: ast.AST, local: set[str], once: dict[str, ast.AST]) -> str:
+        return ast.unparse(ast.fix_missing_locations(Canon(local, once).visit(copy.deepcopy(e))))
+
+    # the stems under which modules are written
+    stems: dict[str, str] = {}
+    for g in ix.all_functions:
+        if g.module is not writer_mod or g.parent is not None:
+            continue
+        once, local = _once_bound(g.node), local_names(g.node)
+        for n in ast.walk(g.node):
+            if isinstance(n, ast.BinOp) and isinstance(n.op, ast.Div):
+                r = n.right
+                for _ in range(3):
+                    if isinstance(r, ast.Name) and r.id in once:
+                        r = once[r.id]
+                if isinstance(r, ast.JoinedStr) and len(r.values) == 2 and isinstance(r.values[0], ast.FormattedValue) and \
+                        isinstance(r.values[1], ast.Constant) and r.values[1].value == ".py":
+                    stems.setdefault(canon(r.values[0].value, local, once), where(g, n))
+    rep.require(stems, "the paths `<dir> / f\"{E}.py\"` under which the builder writes document-named modules")
+    rep.floor("module_stem_derivations", len(stems), 2)
+
+    # what the environment offers to templates under a name of its own
+    offered: dict[str, tuple[list[str], ast.AST]] = {}
+    for g in ix.all_functions:
+        if g.module is not writer_mod:
+            continue
+        for c_ in ast.walk(g.node):
+            if isinstance(c_, ast.Call) and isinstance(c_.func, ast.Attribute) and c_.func.attr == "update" and norm(c_.func.value).endswith("globals"):
+                for k in c_.keywords:
+                    if k.arg and isinstance(k.value, ast.Lambda):
+                        offered[k.arg] = ([a.arg for a in k.value.args.args], k.value.body)
+    filters: dict[str, str] = {}
+    for st in writer_mod.tree.body:
+        if isinstance(st, (ast.Assign, ast.AnnAssign)) and isinstance(st.value, ast.Dict) and "FILTERS" in norm(st.targets[0] if isinstance(st, ast.Assign) else st.target):
+            for k, v in zip(st.value.keys, st.value.values):
+                if isinstance(k, ast.Constant) and isinstance(k.value, str):
+                    filters[k.value] = canon(v, set(), {})
+
+    def tpl(n: nodes.Node) -> str:
+        """the hole as a Python expression of the element at hand"""
+        if isinstance(n, nodes.Name):
+            return n.name if n.name in ("config", "utils") or n.name in offered else "_"
+        if isinstance(n, nodes.Const):
+            return repr(n.value)
+        if isinstance(n, nodes.Getattr):
+            inner = tpl(n.node)
+            return n.attr if inner in ("utils",) else f"{inner}.{n.attr}"
+        if isinstance(n, nodes.Filter) and n.node is not None and n.name in filters and not n.args and not n.kwargs:
+            return f"{filters[n.name]}({tpl(n.node)})"
+        if isinstance(n, nodes.Call) and not n.kwargs and not n.dyn_args and not n.dyn_kwargs:
+            args = [tpl(a) for a in n.args]
+            if isinstance(n.node, nodes.Name) and n.node.name in offered and len(offered[n.node.name][0]) == len(args):
+                params, body = offered[n.node.name]
+                try:
+                    binding = {p_: ast.parse(a, mode="eval").body for p_, a in zip(params, args)}
+                except SyntaxError:
+                    return expr_text(n)
+                return canon(body, set(), binding)
+            return f"{tpl(n.node)}({', '.join(args)})"
+        return expr_text(n)
+
+    n_holes = 0
+    for tn_, ti_ in sorted(jx.templates.items()):
+        if not tn_.endswith(".py.jinja"):
+            continue
+        for mname_, body_ in [("<top>", ti_.tree.body)] + [(m_.name, m_.body) for m_ in ti_.macros.values()]:
+            before = ""
+            for fr in tplq.frags(body_):
+                if fr.kind == "data":
+                    before = (before + fr.text)[-200:]
+                    continue
+                if _MODULE_HOLE.search(before):
+                    n_holes += 1
+                    got = tpl(fr.node)
+                    rep.check(got in stems, "R01.14", f"{tn_}::{mname_}::module<-{fr.text[:60]}",
+                              "template text imports a sibling module under a name that is not derived the way the builder names the files it "
+                              "writes: for names the two derivations treat differently (reserved words, leading digits / underscores) the "
+                              "import names a module that does not exist or is not an identifier (ImportError / SyntaxError)",
+                              where=f"{PKG}/templates/{tn_}:{fr.line}", lhs=got, rhs=sorted(stems))
+                before = (before + "\x00")[-200:]
+    rep.floor("module_holes_in_template_imports", n_holes, 0)  # (none today: the import lines with module names are composed in Python)
 
 
 # ---- R01.4, parameter lists ------------------------------------------------------------------------------------------------------------
@@ -1779,6 +2031,31 @@ def _empties(atom: str, dom: str) -> bool:
     return t in (dom, dom + "|length", dom + "|count", dom + "|length > 0", dom + "|length != 0", dom + "|count > 0")
 
 
+def _const_truth(t: nodes.Node) -> "bool | None":
+    """the value of a condition that consists of constants only (what a test on a macro parameter becomes where the macro is expanded
+    with a constant argument); None when it depends on anything else"""
+    if isinstance(t, nodes.Const):
+        return bool(t.value)
+    if isinstance(t, nodes.Not):
+        v = _const_truth(t.node)
+        return None if v is None else not v
+    if isinstance(t, (nodes.And, nodes.Or)):
+        l, r = _const_truth(t.left), _const_truth(t.right)
+        absorbing = isinstance(t, nodes.Or)
+        if l is absorbing or r is absorbing:
+            return absorbing
+        return (not absorbing) if l is (not absorbing) and r is (not absorbing) else None
+    if isinstance(t, nodes.Compare) and len(t.ops) == 1 and isinstance(t.expr, nodes.Const) and isinstance(t.ops[0].expr, nodes.Const):
+        l, r, op = t.expr.value, t.ops[0].expr.value, t.ops[0].op
+        if op in ("eq", "ne"):
+            return (l == r) == (op == "eq")
+        if op in ("in", "notin") and isinstance(r, str) and isinstance(l, str):
+            return (l in r) == (op == "in")
+    if isinstance(t, nodes.Test) and isinstance(t.node, nodes.Const) and t.name == "none" and not t.args:
+        return t.node.value is None
+    return None
+
+
 class _TplRun:
     def __init__(self, jx: Any, root: Any) -> None:
         self.jx, self.root = jx, root
@@ -1796,6 +2073,9 @@ class _TplRun:
         self.chain: list[Any] = []  # the templates whose `include` is being expanded
         self._lstack: list[tuple[int, nodes.Node]] = []  # the loops being expanded: (number of the run of the loop, its iterable)
         self._ostack: list[tuple[str, str]] = []  # the macros / partials being expanded: (template, macro)
+        # what `caller(...)` stands for in the macro being expanded: the `{% call %}` block that expands it (block, its template, the
+        # names bound where it stands, the expansions it stands in) - None in a macro that is expanded by a plain call
+        self._cstack: list[Any] = []
         self._lcount = 0
         self.reset({})
         self.relevant: set[str] = set()
@@ -1893,33 +2173,52 @@ class _TplRun:
                     if isinstance(base, nodes.Name) and base.name in self.blocks[ti.name] and depth < 4:
                         yield from self.frags(self.blocks[ti.name][base.name].body, ti, binds, guards, gnodes, loops, depth + 1, targets)
                         continue
+                    if isinstance(c2, nodes.Const) and isinstance(c2.value, str) and not isinstance(c, nodes.Const) and c2.value.strip():
+                        # a parameter that the expansion at hand binds to a constant text: written as that text
+                        yield frag("data", c2.value, c.lineno, guards, gnodes, loops, nodes.TemplateData(c2.value, lineno=c.lineno))
+                        continue
                     whole = False
                     for call in _calls_inner_first(c2):
+                        if isinstance(call.node, nodes.Name) and call.node.name == "caller" and self._cstack and self._cstack[-1] is not None \
+                                and depth < 8:
+                            # the body of the `{% call %}` block, where the macro asks for it: with the block's parameters bound to what
+                            # the macro passes, everything else read where the block stands
+                            blk, bti, bbinds, bostack = self._cstack[-1]
+                            bparams = [a.name for a in blk.args]
+                            b3: dict[str, nodes.Node] = dict(bbinds)
+                            b3.update(zip(bparams[len(bparams) - len(blk.defaults):], blk.defaults))
+                            b3.update(zip(bparams, call.args))
+                            b3.update({k.key: k.value for k in call.kwargs if k.key in bparams})
+                            saved_o, saved_c = self._ostack, self._cstack
+                            self._ostack, self._cstack = list(bostack), self._cstack[:-1]
+                            try:
+                                yield from self.frags(blk.body, bti, b3, guards, gnodes, loops, depth + 1, targets)
+                            finally:
+                                self._ostack, self._cstack = saved_o, saved_c
+                            whole = whole or call is base
+                            continue
                         hit = self.macro_of(call, ti)
                         if hit is not None and depth < 4:
-                            t2, m = hit
-                            params = [a.name for a in m.args]
-                            b2: dict[str, nodes.Node] = dict(zip(params[len(params) - len(m.defaults):], m.defaults))
-                            b2.update(zip(params, call.args))
-                            b2.update({k.key: k.value for k in call.kwargs})
-                            self._ostack.append((t2.name, m.name))
-                            try:
-                                yield from self.frags(m.body, t2, b2, guards, gnodes, loops, depth + 1, targets)
-                            finally:
-                                self._ostack.pop()
+                            yield from self._expand(hit, call, None, guards, gnodes, loops, depth, targets)
                             whole = whole or call is base
                     if not whole:
                         yield frag("expr", expr_text(c2), c.lineno, guards, gnodes, loops, c2)
             elif isinstance(n, nodes.If):
-                t = sub(n.test)
-                yield from self.frags(n.body, ti, binds, guards + ((expr_text(t), True),), gnodes + (t,), loops, depth, targets)
-                neg, gn = guards + ((expr_text(t), False),), gnodes + (t,)
-                for el in n.elif_:
-                    t2_ = sub(el.test)
-                    yield from self.frags(el.body, ti, binds, neg + ((expr_text(t2_), True),), gn + (t2_,), loops, depth, targets)
-                    neg, gn = neg + ((expr_text(t2_), False),), gn + (t2_,)
-                if n.else_:
-                    yield from self.frags(n.else_, ti, binds, neg, gn, loops, depth, targets)
+                # (a test that the expansion at hand decides - a parameter compared with the constant it is bound to - selects its arm)
+                neg, gn = guards, gnodes
+                for test, arm in [(n.test, n.body)] + [(el.test, el.body) for el in n.elif_]:
+                    t = sub(test)
+                    known = _const_truth(t) if binds else None
+                    if known is False:
+                        continue
+                    if known is True:
+                        yield from self.frags(arm, ti, binds, neg, gn, loops, depth, targets)
+                        break
+                    yield from self.frags(arm, ti, binds, neg + ((expr_text(t), True),), gn + (t,), loops, depth, targets)
+                    neg, gn = neg + ((expr_text(t), False),), gn + (t,)
+                else:
+                    if n.else_:
+                        yield from self.frags(n.else_, ti, binds, neg, gn, loops, depth, targets)
             elif isinstance(n, nodes.For):
                 itn = sub(n.iter)
                 it = expr_text(itn)
@@ -1948,8 +2247,31 @@ class _TplRun:
                             self.chain.pop()
                             self._ostack.pop()
                         break
-            elif isinstance(n, (nodes.With, nodes.Scope, nodes.CallBlock, nodes.FilterBlock, nodes.AssignBlock)):
+            elif isinstance(n, nodes.CallBlock):
+                call = sub(n.call)
+                hit = self.macro_of(call, ti) if isinstance(call, nodes.Call) else None
+                if hit is not None and depth < 4:
+                    # `{% call(x) m(args) %}body{% endcall %}` writes what m(args) writes, the body wherever m writes caller(...)
+                    yield from self._expand(hit, call, (n, ti, dict(binds), list(self._ostack)), guards, gnodes, loops, depth, targets)
+                else:
+                    yield from self.frags(n.body, ti, binds, guards, gnodes, loops, depth, targets)
+            elif isinstance(n, (nodes.With, nodes.Scope, nodes.FilterBlock, nodes.AssignBlock)):
                 yield from self.frags(getattr(n, "body", []), ti, binds, guards, gnodes, loops, depth, targets)
+
+    def _expand(self, hit: Any, call: nodes.Call, block: Any, guards: tuple, gnodes: tuple, loops: tuple, depth: int, targets: tuple) -> Any:
+        """the fragments of a macro's body with its parameters bound to the arguments of the call"""
+        t2, m = hit
+        params = [a.name for a in m.args]
+        b2: dict[str, nodes.Node] = dict(zip(params[len(params) - len(m.defaults):], m.defaults))
+        b2.update(zip(params, call.args))
+        b2.update({k.key: k.value for k in call.kwargs})
+        self._ostack.append((t2.name, m.name))
+        self._cstack.append(block)
+        try:
+            yield from self.frags(m.body, t2, b2, guards, gnodes, loops, depth + 1, targets)
+        finally:
+            self._ostack.pop()
+            self._cstack.pop()
 
     # -- conditions --------------------------------------------------------------------------------------------------------------------
     def stable(self, n: nodes.Node) -> bool:
@@ -2307,17 +2629,39 @@ def _renames_rechecked(rep: Report, ctx: Any) -> None:
                 return lp
         return None
 
+    def call_sites(h: Any) -> list[tuple[Any, ast.stmt]]:
+        """(caller, statement) of every call of region helper h from another function of the region"""
+        out = []
+        for k in reg:
+            if k is h:
+                continue
+            for st in cfg_of(k, cfgs).stmts():
+                if any(isinstance(c_, ast.Call) and h in _callees(ix, k, c_) for c_ in walk_own(st)):
+                    out.append((k, st))
+        return out
+
+    def recorded_after(g: Any, st: ast.stmt, depth: int = 0) -> bool:
+        """every path from st to the next parameter passes an addition to a modification set.  The pass over the parameters may be a
+        loop of g itself or of a caller: where g has no loop around st, a path that leaves g unrecorded continues behind each call of
+        g in the region (a helper that only renames leaves the bookkeeping to its caller)."""
+        cg, lp = cfg_of(g, cfgs), pass_loop(g, st)
+        if lp is not None:
+            return cg.every_path_passes(st, lp, records(g))
+        if cg.every_path_passes(st, EXIT, records(g)):
+            return True
+        sites = call_sites(g) if g is not f and depth < 3 else []
+        return bool(sites) and all(recorded_after(k, c_, depth + 1) for k, c_ in sites)
+
     n_ren = 0
     loops: list[tuple[Any, ast.stmt]] = []
     renaming = [g for g in reg if renames_of(g)]
     for g in renaming:
-        cg = cfg_of(g, cfgs)
         for s_ in renames_of(g):
             n_ren += 1
             lp = pass_loop(g, s_)
             if lp is not None:
                 loops.append((g, lp))
-            ok = cg.every_path_passes(s_, lp if lp is not None else EXIT, records(g))
+            ok = recorded_after(g, s_)
             rep.check(ok, "R01.8", f"{short(g)}::rename->{anon(s_, local_names(g.node))[:60]}",
                       "a parameter is renamed but the change is not recorded in the set of modified parameters on every path: no re-check runs",
                       where(g, s_), lhs=norm(s_)[:80], rhs="followed by <modified set>.add on every path to the next iteration")
@@ -2373,8 +2717,11 @@ def _renames_rechecked(rep: Report, ctx: Any) -> None:
                 isinstance(x, ast.Compare) and len(x.ops) == 1 and isinstance(x.ops[0], (ast.Eq, ast.NotEq)) and
                 norm(x.left).endswith(".python_name") and norm(x.comparators[0]).endswith(".python_name") for x in walk_own(n))
 
+        # the way out when the names are still equal: an error value is returned, or the function is left by an exception (which
+        # of the two is the caller's protocol, not a fact about the re-check) - in either case decided by the comparison
+        gives_up = [r for r in cg.stmts() if (isinstance(r, ast.Return) and constructs_error(r.value)) or isinstance(r, ast.Raise)]
         ok = all(cg.every_path_passes(s_, EXIT, compares) for s_ in renames_of(g)) and \
-            any(isinstance(r, ast.Return) and constructs_error(r.value) for r in ast.walk(g.node))
+            any(cg.is_dominated_by(r, compares) for r in gives_up)
         rep.check(ok, "R01.8", f"{short(g)}::re-check", "raw-name fallback is not followed by an equality test that returns an error",
                   where(g, g.node), lhs=[norm(s_)[:60] for s_ in renames_of(g)], rhs="then a comparison of the two python names on every path, and an error return")
     rep.floor("attribute_renames", n_attr, 1)
